@@ -43,6 +43,14 @@ Theorem C11_norm_float_numeral :
                 norm_str s = JFloat m e.
 Proof. exact norm_str_float. Qed.
 
+(* the matcher numeral_kind accepts exactly "digits with optional leading minus,
+   fraction and exponent, nothing else" (numeral_spec: optional minus, one or
+   more ASCII digits, optionally a dot and one or more digits, optionally e or
+   E with optional sign and one or more digits), and says KInt exactly when
+   neither fraction nor exponent is present *)
+Theorem C11_numeral_grammar : forall t k, numeral_kind t = Some k <-> numeral_spec t k.
+Proof. exact numeral_kind_iff. Qed.
+
 (* "same numbers": an integer is printed as a numeral that reads back as itself *)
 Theorem C11_int_text : forall z, numeral_kind (print_Z z) = Some KInt /\ int_of_text (print_Z z) = z.
 Proof. intro z. split; [apply print_Z_numeral|apply print_Z_value]. Qed.
@@ -62,7 +70,7 @@ Section C11.
     in_range v = true -> no_leading_eq v = true ->
     forall r, delim_start r = true ->
     lex 0 (encode fprint v ++ r) = lapp (tokens fprint v) (lex 0 r).
-  Proof. exact (lex_encode fprint fprint_numeral). Qed.
+  Proof. exact (lex_encode_ok fprint fprint_numeral). Qed.
 
   (* the token sequence parses to exactly the value's tree, in any context *)
   Theorem C11_parse_tokens_encode : forall v stk st r,
@@ -77,15 +85,25 @@ Section C11.
   Theorem C11_roundtrip : forall v,
     wf v = true -> in_range v = true -> no_leading_eq v = true ->
     eval_lit (encode fprint v) = ROk (norm v).
-  Proof. exact (roundtrip fprint fprint_numeral fprint_parse). Qed.
+  Proof. exact (roundtrip_ok fprint fprint_numeral fprint_parse). Qed.
 
   (* map keys (also keys that look like numbers or start with the CEL prefix)
      come back unchanged, all of them, in order *)
   Theorem C11_keys : forall kvs,
     wf (JMap kvs) = true -> in_range (JMap kvs) = true -> no_leading_eq (JMap kvs) = true ->
     exists kvs', eval_lit (encode fprint (JMap kvs)) = ROk (JMap kvs') /\ map fst kvs' = map fst kvs.
-  Proof. exact (keys_roundtrip fprint fprint_numeral fprint_parse). Qed.
+  Proof. exact (keys_roundtrip_ok fprint fprint_numeral fprint_parse). Qed.
 End C11.
+
+(* the same with nothing assumed: repr(float) given as a table of texts (this
+   is how the correspondence check runs the model on what CPython printed);
+   ftable_ok DECIDES the two facts assumed above for the table's entries, and
+   every float of the value must be in the table *)
+Theorem C11_roundtrip_table : forall tb v,
+  ftable_ok tb = true -> floats_all (in_table tb) v = true ->
+  wf v = true -> in_range v = true -> no_leading_eq v = true ->
+  eval_lit (encode (fprint_of tb) v) = ROk (norm v).
+Proof. exact roundtrip_table. Qed.
 
 (* non-vacuity: a nested value full of the hard cases meets the hypotheses, and
    the model really computes the round trip on it (no float inside, so the
@@ -101,6 +119,17 @@ Example C11_nonvacuous :
   norm v <> v.
 Proof. vm_compute. repeat split; discriminate. Qed.
 
+(* ... with floats, through the table version: hypotheses all decided by computation *)
+Example C11_nonvacuous_floats :
+  let tb := [((1, -1), "0.5"); ((-5, -1), "-2.5"); ((3602879701896397, -55), "0.1");
+             ((1, 1074 - 2148), "5e-324"); ((2220446049250313, 3), "1.7763568394002504e+16")]%Z in
+  let v := JMap [("f", JList [JFloat 1 (-1); JFloat (-5) (-1); JFloat 3602879701896397 (-55)]);
+                 ("g", JMap [("tiny", JFloat 1 (-1074)); ("big", JFloat 2220446049250313 3)])] in
+  ftable_ok tb = true /\ floats_all (in_table tb) v = true /\
+  wf v = true /\ in_range v = true /\ no_leading_eq v = true /\
+  eval_lit (encode (fprint_of tb) v) = ROk v.
+Proof. vm_compute. repeat split. Qed.
+
 (* ... and a numeral with fraction / exponent is delivered as the double it denotes *)
 Example C11_float_numeral :
   eval_lit (encode (fun _ _ => []) (JList [JStr "1.5e3"; JStr "0.1"])) =
@@ -112,8 +141,10 @@ Print Assumptions C11_string_roundtrip.
 Print Assumptions C11_norm_other_strings.
 Print Assumptions C11_norm_int_numeral.
 Print Assumptions C11_norm_float_numeral.
+Print Assumptions C11_numeral_grammar.
 Print Assumptions C11_int_text.
 Print Assumptions C11_lex_encode.
 Print Assumptions C11_parse_tokens_encode.
 Print Assumptions C11_roundtrip.
 Print Assumptions C11_keys.
+Print Assumptions C11_roundtrip_table.
